@@ -17,7 +17,7 @@ func init() {
 			"R3 kind discipline: pos evaluates to the start of a token or a child's pos; end to the end of a token, a child's end, or start + n where n equals the byte length of that token as established by the guards on the path (expect(\"X\"), expectKeywordLike(\"X\"), a switch on the kind evaluated while the token was current), constants and len(field) included, (B ? a : b) per constant of B. " +
 			"R5 sibling order: the declaration order of the node-typed fields equals the order of their parse events in every production (CreateTable exempt as in the property). " +
 			"Does not decide: 0 <= Pos and End <= len(input) (numeric, follows from token positions being in range), Bad* ranges (C10).",
-		Rules: []ruleFn{ruleC05Anchors, ruleC05R5, ruleC06Order, ruleC06R3},
+		Rules: []ruleFn{ruleC05Anchors, ruleC05R5, ruleC06Order, ruleC06R3, ruleC05R6},
 	})
 	register(&propDef{
 		ID: "C06",
@@ -25,7 +25,7 @@ func init() {
 			"R1 first token: the value chosen by pos at a site is produced by the first token-consuming event of the production for this node (no other field's event precedes it, apart from fields listed earlier in the pos chain); " +
 			"R2 last token / complete fallback chains: (a) the alternatives of an end chain are listed in the reverse order of their parse events, (b) every field whose parse event lies after the event of the last (mandatory) alternative appears in the chain. " +
 			"Does not decide: clauses (a)/(b) of the property as stated (re-parsing substrings is a run-time experiment); the rules are the code-shape conditions without which they fail.",
-		Rules: []ruleFn{ruleC05Anchors, ruleC06Order, ruleC06R3},
+		Rules: []ruleFn{ruleC05Anchors, ruleC06Order, ruleC06R3, ruleC06R4, ruleC05R6},
 	})
 }
 
@@ -764,7 +764,7 @@ func ruleC06Order(w *World, r *Report) {
 					continue
 				}
 				eg := w.fieldEvents(si, g)
-				if allBefore(eg, ea) && si.ns.Name != "CreateTable" {
+				if anyBefore(eg, ea) && si.ns.Name != "CreateTable" {
 					a1.bad = append(a1.bad, fmt.Sprintf("%s: pos = %s chooses %s, but %s is parsed before it: Pos() points into the middle of the node", siteName, pString(si.ns.PosExpr), anchor, g))
 				}
 			}
@@ -788,7 +788,7 @@ func ruleC06Order(w *World, r *Report) {
 					continue
 				}
 				// fi is preferred over fj: fi must not be parsed before fj
-				if allBefore(w.fieldEvents(si, fi), w.fieldEvents(si, fj)) {
+				if anyBefore(w.fieldEvents(si, fi), w.fieldEvents(si, fj)) {
 					a2.bad = append(a2.bad, fmt.Sprintf("%s: end = %s prefers %s over %s, but %s is parsed later: End() stops before the last clause", siteName, pString(si.ns.EndExpr), fi, fj, fj))
 				}
 			}
@@ -868,4 +868,300 @@ func ruleC05R1Only(w *World, r *Report) {
 		}
 	}
 	r.Errors = append(r.Errors, tmp.Errors...)
+}
+
+// ruleC06R4: the text printed for a node begins with what its pos anchor stands for and ends with what its end anchor
+// stands for. Clause (b) of C06 replaces input[n.Pos():n.End()] by n.SQL(): a node whose SQL() does not start with its
+// own first token (the ':' of a braced-constructor field value printed by the parent instead) puts the text in the wrong
+// place although every position and the root's SQL() are right.
+func ruleC06R4(w *World, r *Report) {
+	const rule = "C06/R4"
+	r.rule(rule, "for node types whose pos is a single anchor: when the anchor is the position field of a token of known kind(s), every printed form of SQL() starts with constant text that begins with one of those spellings; when it is a child's pos, SQL() starts by printing that child. Likewise the end: `F + n` — SQL() ends with constant text ending in the spelling of F's token; a child's end — SQL() ends by printing that child", 250)
+	cat := w.Catalog()
+	// kinds of the token whose start is stored in a position field, over all sites
+	kindsOf := func(ns *NodeStruct, field string) ([]string, bool) {
+		var out KSet
+		seen := false
+		for _, si := range w.sites() {
+			if si.ns != ns {
+				continue
+			}
+			pa, ok := si.pos[field]
+			if !ok {
+				continue
+			}
+			for _, a := range pa {
+				switch a.kind {
+				case "start":
+					if a.off != 0 {
+						return nil, false
+					}
+					out = out.Join(a.fact)
+					seen = true
+				case "invalid", "zero":
+				default:
+					return nil, false
+				}
+			}
+		}
+		if !seen {
+			return nil, false
+		}
+		atoms, fin := out.Finite()
+		if !fin || len(atoms) == 0 {
+			return nil, false
+		}
+		for _, a := range atoms {
+			if strings.HasPrefix(a, "<") {
+				return nil, false // <ident>, <int> …: no fixed spelling
+			}
+		}
+		return atoms, true
+	}
+	hasPrefixFold := func(s, p string) bool {
+		return len(s) >= len(p) && strings.EqualFold(s[:len(p)], p)
+	}
+	hasSuffixFold := func(s, p string) bool {
+		return len(s) >= len(p) && strings.EqualFold(s[len(s)-len(p):], p)
+	}
+	n := 0
+	for _, ns := range cat.Structs {
+		if strings.HasPrefix(ns.Name, "Bad") || ns.PosExpr == nil || ns.EndExpr == nil {
+			continue
+		}
+		pm := w.PrintModel(ns)
+		if pm == nil || len(pm.seqs) == 0 || pm.opaque {
+			continue
+		}
+		// ---- start
+		switch px := ns.PosExpr.(type) {
+		case *PVar:
+			if kinds, ok := kindsOf(ns, px.Name); ok {
+				n++
+				construct := "ast." + ns.Name + ": SQL() starts with the token at " + px.Name
+				var bad []string
+				judged := 0
+				for _, seq := range pm.seqs {
+					if len(seq) == 0 {
+						continue
+					}
+					p := seq[0]
+					switch p.kind {
+					case "const":
+						if p.text == "" {
+							continue
+						}
+						judged++
+						okk := false
+						for _, k := range kinds {
+							if hasPrefixFold(p.text, k) {
+								okk = true
+							}
+						}
+						if !okk {
+							bad = append(bad, fmt.Sprintf("a printed form starts with %q, the node starts at a token %v", p.text, kinds))
+						}
+					case "field-sql", "paren", "join":
+						judged++
+						bad = append(bad, fmt.Sprintf("a printed form starts with the child %s, the node's range starts at the token %v recorded in %s: the token is printed by someone else", p.field, kinds, px.Name))
+					}
+				}
+				switch {
+				case len(bad) > 0:
+					r.bad(rule, construct, w.pos(pm.fn.Pos()), strings.Join(uniqSorted(bad), "; "))
+				case judged > 0:
+					r.ok(rule, construct, w.pos(pm.fn.Pos()), fmt.Sprintf("%d printed form(s) start with %v", judged, kinds))
+				default:
+					r.trivial(rule, construct, w.pos(pm.fn.Pos()), "first piece is conditional: not judged")
+				}
+			}
+		case *PNode:
+			if nv, ok := px.N.(*NVar); ok && !px.End {
+				n++
+				construct := "ast." + ns.Name + ": SQL() starts with the child " + nv.Name
+				var bad []string
+				judged := 0
+				for _, seq := range pm.seqs {
+					if len(seq) == 0 {
+						continue
+					}
+					p := seq[0]
+					switch p.kind {
+					case "const":
+						if p.text == "" {
+							continue
+						}
+						// the child's own text may be printed inline: not judged
+					case "field-sql", "paren", "join":
+						judged++
+						if p.field != nv.Name {
+							bad = append(bad, fmt.Sprintf("a printed form starts with the child %s, the node's range starts where %s starts", p.field, nv.Name))
+						}
+					}
+				}
+				switch {
+				case len(bad) > 0:
+					r.bad(rule, construct, w.pos(pm.fn.Pos()), strings.Join(uniqSorted(bad), "; "))
+				case judged > 0:
+					r.ok(rule, construct, w.pos(pm.fn.Pos()), fmt.Sprintf("%d printed form(s) start with %s", judged, nv.Name))
+				default:
+					r.trivial(rule, construct, w.pos(pm.fn.Pos()), "first piece is conditional: not judged")
+				}
+			}
+		}
+		// ---- end
+		switch ex := ns.EndExpr.(type) {
+		case *PAdd:
+			pv, ok := ex.X.(*PVar)
+			if !ok {
+				break
+			}
+			if kinds, ok := kindsOf(ns, pv.Name); ok {
+				n++
+				construct := "ast." + ns.Name + ": SQL() ends with the token at " + pv.Name
+				var bad []string
+				judged := 0
+				for _, seq := range pm.seqs {
+					if len(seq) == 0 {
+						continue
+					}
+					p := seq[len(seq)-1]
+					switch p.kind {
+					case "const":
+						if p.text == "" {
+							continue
+						}
+						judged++
+						okk := false
+						for _, k := range kinds {
+							if hasSuffixFold(p.text, k) {
+								okk = true
+							}
+						}
+						if !okk {
+							bad = append(bad, fmt.Sprintf("a printed form ends with %q, the node ends with a token %v", p.text, kinds))
+						}
+					case "field-sql", "paren", "join":
+						judged++
+						bad = append(bad, fmt.Sprintf("a printed form ends with the child %s, the node's range ends with the token %v recorded in %s", p.field, kinds, pv.Name))
+					}
+				}
+				switch {
+				case len(bad) > 0:
+					r.bad(rule, construct, w.pos(pm.fn.Pos()), strings.Join(uniqSorted(bad), "; "))
+				case judged > 0:
+					r.ok(rule, construct, w.pos(pm.fn.Pos()), fmt.Sprintf("%d printed form(s) end with %v", judged, kinds))
+				default:
+					r.trivial(rule, construct, w.pos(pm.fn.Pos()), "last piece is conditional: not judged")
+				}
+			}
+		case *PNode:
+			if nv, ok := ex.N.(*NVar); ok && ex.End {
+				n++
+				construct := "ast." + ns.Name + ": SQL() ends with the child " + nv.Name
+				var bad []string
+				judged := 0
+				for _, seq := range pm.seqs {
+					if len(seq) == 0 {
+						continue
+					}
+					p := seq[len(seq)-1]
+					switch p.kind {
+					case "const":
+						if p.text == "" {
+							continue
+						}
+						// the child's own text may be printed inline: not judged
+					case "field-sql", "paren", "join":
+						judged++
+						if p.field != nv.Name {
+							bad = append(bad, fmt.Sprintf("a printed form ends with the child %s, the node's range ends where %s ends", p.field, nv.Name))
+						}
+					}
+				}
+				switch {
+				case len(bad) > 0:
+					r.bad(rule, construct, w.pos(pm.fn.Pos()), strings.Join(uniqSorted(bad), "; "))
+				case judged > 0:
+					r.ok(rule, construct, w.pos(pm.fn.Pos()), fmt.Sprintf("%d printed form(s) end with %s", judged, nv.Name))
+				default:
+					r.trivial(rule, construct, w.pos(pm.fn.Pos()), "last piece is conditional: not judged")
+				}
+			}
+		}
+	}
+	_ = n
+}
+
+// ruleC05R6: positions are offsets into the caller's text. Every token.File the core packages build gets as its
+// Buffer the very string the caller passed in: a parameter, handed down unchanged from the exported function.
+func ruleC05R6(w *World, r *Report) {
+	const rule = "C05/R6"
+	r.rule(rule, "every store to token.File.Buffer in the core packages stores a string parameter of the enclosing function unchanged, and where that function is not exported each caller passes its own string parameter in that position (up to the exported entry point): positions are offsets into the text the caller supplied, not into a trimmed or converted copy", 2)
+	n := 0
+	var fromParam func(v ssa.Value, depth int) (bool, string)
+	fromParam = func(v ssa.Value, depth int) (bool, string) {
+		p, ok := v.(*ssa.Parameter)
+		if !ok {
+			return false, fmt.Sprintf("%s is computed (%s), not a parameter", v.Name(), v.String())
+		}
+		fn := p.Parent()
+		if fn.Object() != nil && fn.Object().Exported() || depth > 4 {
+			return true, ""
+		}
+		idx := -1
+		for i, q := range fn.Params {
+			if q == p {
+				idx = i
+			}
+		}
+		callers := w.callersOf(fn)
+		if len(callers) == 0 {
+			return true, ""
+		}
+		for _, cs := range callers {
+			if !corePkg(fnPkgPath(cs.Parent())) {
+				continue
+			}
+			com := cs.Common()
+			off := 0
+			if com.IsInvoke() {
+				off = 1
+			}
+			if idx-off < 0 || idx-off >= len(com.Args) {
+				return false, "argument not found at " + w.pos(cs.Pos())
+			}
+			if ok, why := fromParam(com.Args[idx-off], depth+1); !ok {
+				return false, fmt.Sprintf("in %s at %s: %s", funcName(cs.Parent()), w.pos(cs.Pos()), why)
+			}
+		}
+		return true, ""
+	}
+	for _, fn := range w.ModFns {
+		if !corePkg(fnPkgPath(fn)) || fn.Blocks == nil {
+			continue
+		}
+		for _, b := range fn.Blocks {
+			for _, in := range b.Instrs {
+				st, ok := in.(*ssa.Store)
+				if !ok {
+					continue
+				}
+				fa, ok := st.Addr.(*ssa.FieldAddr)
+				if !ok || fieldAddrName(fa) != "Buffer" || !isNamed(fa.X.Type(), modRoot+"/token", "File") {
+					continue
+				}
+				n++
+				construct := "File.Buffer in " + funcName(fn)
+				if ok, why := fromParam(st.Val, 0); ok {
+					r.ok(rule, construct, w.pos(st.Pos()), "the caller's string, unchanged")
+				} else {
+					r.bad(rule, construct, w.pos(st.Pos()), "the lexer runs on a string that is not the caller's text ("+why+"): every Pos/End is an offset into the copy")
+				}
+			}
+		}
+	}
+	if n < 2 {
+		r.errorf("expected the File literals of newParser and SplitRawStatements, found %d", n)
+	}
 }
